@@ -5,6 +5,12 @@ Model: `Eru/Cluster2/Lambda.lean` (`cluster/calcium/lambda.go`).  All theorems q
 every outcome vector `sc : Script` of (logs, attach, wait, exit code) and over stdin on/off.
 The only guard is `sc.walLog = true` (the `create-lambda` event could be logged): if logging
 fails the code returns before installing the deferred removal — see `unlogged_not_removed`.
+
+Partial / observations (outside the quantifier of C30, which ranges over logs / attach / wait /
+exit-code outcomes): the model's `removeSync` always succeeds.  In the code `doRemoveWorkloadSync`
+ignores failed removal messages ("TODO deal with failed") and returns nil, and the deferred
+commit then erases the `create-lambda` event: a failing engine/store removal leaks the workload
+with no WAL entry left to retry it.
 -/
 namespace Eru.Props.C30
 open Eru.Cluster (ResAlg)
@@ -70,7 +76,10 @@ theorem lambdaOne_done (stdin : Bool) (cm : CreateMsg) (sc : Script) (s : LSt R)
   | failed => rfl
   | ok id => cases sc.walLog <;> rfl
 
-/-- every worker calls `wg.Done` exactly once, whatever happens: the output stream closes -/
+/-- every worker calls `wg.Done` exactly once, whatever happens: the output stream closes.
+TRUE BY CONSTRUCTION of the model (each branch of `lambdaOne` increments `done` once; Go's
+`defer wg.Done()` is the first deferred call of the worker); the real claim — the channel closes
+for every script — is what the harness checks with its 15 s deadline (`C30:stream-not-closed`). -/
 theorem stream_closes (stdin : Bool) (cms : List (CreateMsg × Script)) (s : LSt R) :
     streamCloses stdin cms s = true := by
   unfold streamCloses
@@ -126,6 +135,42 @@ theorem run_all_removed (stdin : Bool) (cms : List (CreateMsg × Script)) (s : L
       rw [removeSync_recorded]; simp
     · obtain ⟨cm, sc'⟩ := x
       exact ih _ h
+
+/-! ### the whole run (`runAll`, workers with distinct ids) -/
+
+/-- **After the stream has closed**: record and container of EVERY started workload are gone,
+usage equals the sum of the remaining records on every node -/
+theorem run_all_clean (stdin : Bool) (cms : List (CreateMsg × Script)) (s : LSt R)
+    (hnd : (okIds cms).Nodup) (hlog : ∀ p ∈ cms, p.2.walLog = true) (hc : Consistent s.base)
+    (hn : (s.base.wls.map (·.id)).Nodup) (hrec : ∀ i ∈ okIds cms, recorded s.base i = true) :
+    (∀ i ∈ okIds cms, recorded (runAll stdin cms s).1.base i = false ∧ hasCt (runAll stdin cms s).1.base i = false) ∧
+      Consistent (runAll stdin cms s).1.base :=
+  let h := runAll_clean stdin cms s hnd hlog hc hn hrec
+  ⟨h.1, h.2.1⟩
+
+/-- every `create-lambda` event logged by the run has been committed -/
+theorem run_all_wal_committed (stdin : Bool) (cms : List (CreateMsg × Script)) (s : LSt R)
+    (hnd : (okIds cms).Nodup) (hlog : ∀ p ∈ cms, p.2.walLog = true) (hfr : ∀ i ∈ okIds cms, i ∉ s.lam) :
+    (runAll stdin cms s).1.lam = s.lam :=
+  runAll_wal_committed stdin cms s hnd hlog hfr
+
+/-- within the interleaved stream, the messages of each workload (`msgsOf`) are exactly its output
+lines followed by its exit code, whenever logs, (attach) and wait succeed -/
+theorem run_all_exit_code_last (stdin : Bool) (cms : List (CreateMsg × Script)) (s : LSt R) (id : Nat) (sc : Script)
+    (k : Nat) (c : Int) (hnd : (okIds cms).Nodup) (h0 : 0 ∉ okIds cms) (hmem : (CreateMsg.ok id, sc) ∈ cms)
+    (hlog : sc.walLog = true) (hrec : recorded s.base id = true) (hl : sc.logs = some k)
+    (ha : stdin = true → sc.attach = true) (hw : sc.wait = some c) :
+    msgsOf id (runAll stdin cms s).2 = List.replicate k ⟨id, .data⟩ ++ [⟨id, .exit c⟩] := by
+  rw [runAll_msgs stdin cms s id sc hnd h0 hmem]
+  exact exit_code_last stdin id sc s k c hlog hrec hl ha hw
+
+/-- in every outcome the last message of a workload within the stream is its final message -/
+theorem run_all_final_message_last (stdin : Bool) (cms : List (CreateMsg × Script)) (s : LSt R) (id : Nat) (sc : Script)
+    (hnd : (okIds cms).Nodup) (h0 : 0 ∉ okIds cms) (hmem : (CreateMsg.ok id, sc) ∈ cms) (hlog : sc.walLog = true) :
+    ∃ out fin, msgsOf id (runAll stdin cms s).2 = out ++ [fin] ∧ fin.wid = id ∧
+      (∀ m ∈ out, m = ⟨id, .data⟩) ∧ (fin.kind = .error ∨ ∃ c, fin.kind = .exit c) := by
+  rw [runAll_msgs stdin cms s id sc hnd h0 hmem]
+  exact final_message_last stdin id sc s hlog
 
 /-- Observation outside the quantifier of C30: if `wal.Log(create-lambda)` itself fails, the
 worker returns before the removal is installed — the workload stays. -/
